@@ -107,6 +107,22 @@ class Weird:
         return self.v == other.v
 
 
-SUPPORT_NS = {"R": R, "P": P, "P2": P2, "PSub": PSub, "Q": Q, "A": A, "A2": A2, "NT": NT, "NT2": NT2, "Color": Color, "Perm": Perm, "Weird": Weird}
+class Maybe:
+    """repr is Python code for some values of the type only (like deque([1]) / deque([<Color.red: 1>]))"""
+
+    def __init__(self, code, v):
+        self.code = code
+        self.v = v
+
+    def __repr__(self):
+        return f"Maybe(True, {self.v!r})" if self.code else f"<Maybe {self.v!r}>"
+
+    def __eq__(self, other):
+        if not isinstance(other, Maybe):
+            return NotImplemented
+        return self.code == other.code and self.v == other.v
+
+
+SUPPORT_NS = {"Maybe": Maybe, "R": R, "P": P, "P2": P2, "PSub": PSub, "Q": Q, "A": A, "A2": A2, "NT": NT, "NT2": NT2, "Color": Color, "Perm": Perm, "Weird": Weird}
 if Basket is not None:
     SUPPORT_NS.update({"Basket": Basket, "basket_mut": basket_mut})
